@@ -6,7 +6,7 @@ from . import httplib as H
 OCAML = H.OCAML
 GO = H.GO
 PROP = "props/C12.v"
-PROOFS = ["proofs/HttpInv.v", "proofs/HttpProps.v"] + H.MODEL_FILES
+PROOFS = H.PROTO_PROOFS + H.MODEL_FILES
 
 
 def c12_key(p, sc):
